@@ -1,5 +1,6 @@
 """C03 — EMF content fidelity (structural clauses only)."""
 from mq.util import *
+from mq.facts import strip_generics
 from mq.prov import Prov
 from mq.facts import CallSite
 import rules.c02 as c02
@@ -22,6 +23,50 @@ CR = c02.CR
 
 def binds_param(F, b, param_pred, depth=4):
     pass
+
+
+PSB = "PrefixedStringBuf"
+
+
+def bundle_fields(F, ty):
+    """buffer fields of a private by-value struct of the crate that bundles buffer references (`struct MetricTarget { metrics_buf: &mut
+    PrefixedStringBuf, fields_buf: &mut PrefixedStringBuf, index }`): handing the bundle is handing its buffers"""
+    if ty.startswith("&") or PSB in ty:
+        return []
+    a = F.adts.get(ty.split("<")[0])
+    if not a or a["crate"] != CR or a.get("kind") != "Struct" or len(a["variants"]) != 1:
+        return []
+    return [f["name"] for f in a["variants"][0]["fields"] if f["ty"].startswith("&") and PSB in f["ty"]]
+
+
+def buf_slots(F, b):
+    """the buffers a body is handed: (parameter, None) for a buffer parameter, (parameter, field) for a buffer field of a bundle parameter"""
+    out = []
+    for i in range(1, b.arg_count + 1):
+        ty = b.locals[i]["ty"]
+        if PSB in ty and not bundle_fields(F, ty):
+            if ty.startswith("&") or ty.split("<")[0].endswith(PSB):
+                out.append((i, None))
+        else:
+            out += [(i, f) for f in bundle_fields(F, ty)]
+    return out
+
+
+def slot_match(y, slot):
+    if isinstance(slot, int):
+        slot = (slot, None)
+    return y[0] == "arg" and y[1] == slot[0] and (slot[1] is None or (len(y[2]) > 0 and y[2][0] == slot[1]))
+
+
+def buf_handles(F, b, a):
+    """number of buffers an argument operand hands over"""
+    l = op_local(a)
+    if l is None:
+        return 0
+    ty = b.local_ty(l)
+    if PSB in ty and not bundle_fields(F, ty):
+        return 1
+    return len(bundle_fields(F, ty))
 
 
 def run(ctx):
@@ -97,22 +142,23 @@ def run(ctx):
     for b in mets:
         pr = Prov(b, adapter_pred=lambda t: (t.get("callee") or {}).get("name") in ("or_insert_with", "or_insert", "deref_mut", "deref"))
         wm = [c for c in b.calls() if any(sb.crate == CR for sb in local_callee_bodies(F, c)) and
-              sum(1 for a in c.args if op_local(a) is not None and "PrefixedStringBuf" in b.local_ty(op_local(a))) >= 2]
+              sum(buf_handles(F, b, a) for a in c.args) >= 2]
         ctx.floor("R03.2", "calls handing (value buffer, definition buffer) to the metric writer", len(wm), 1)
         for c in wm:
-            bufargs = [a for a in c.args if op_local(a) is not None and "PrefixedStringBuf" in b.local_ty(op_local(a))][:2]
             # each buffer argument comes out of a tuple built in two branches: compare owners per aggregate
             aggs = []
             for i in b.live_blocks():
                 for s in b.stmts(i):
-                    if s["k"] == "assign" and s["rv"]["k"] == "agg" and s["rv"].get("agg") == "tuple" and len(s["rv"]["ops"]) >= 2:
+                    # ... a tuple, or a private struct bundling the two buffer references
+                    if s["k"] == "assign" and s["rv"]["k"] == "agg" and len(s["rv"]["ops"]) >= 2 and (
+                            s["rv"].get("agg") == "tuple" or (s["rv"].get("agg") == "adt" and bundle_fields(F, s["rv"].get("adt") or ""))):
                         tys = [b.local_ty(op_local(o)) if op_local(o) is not None else "" for o in s["rv"]["ops"]]
                         if sum(1 for t in tys if "PrefixedStringBuf" in t) >= 2:
                             aggs.append((i, s))
             ctx.floor("R03.2", "routing tuples (definition buffer, value buffer, index)", len(aggs), 2)
             for i, s in aggs:
                 owners = []
-                for o in s["rv"]["ops"][:2]:
+                for o in [o_ for o_ in s["rv"]["ops"] if op_local(o_) is not None and PSB in b.local_ty(op_local(o_))][:2]:
                     oo = pr.operand(o)
                     ow = set()
                     for x in oo:
@@ -134,18 +180,18 @@ def run(ctx):
                           "declared in one record and its value written to another" % (sorted(map(str, a)), sorted(map(str, b_))),
                           "both buffers from %s" % sorted(map(str, a)))
     # ------------------------------------------------------------------ R03.3 skipped means absent
-    wms = [b for b in F.all_bodies(CR) if c02.in_scope(b) and sum(1 for i in range(1, b.arg_count + 1) if "PrefixedStringBuf" in b.locals[i]["ty"]) >= 3]
+    wms = [b for b in F.all_bodies(CR) if c02.in_scope(b) and len(buf_slots(F, b)) >= 3]
     ctx.floor("R03.3", "metric writers (value, definition and counts buffers)", len(wms), 1)
     buf_roles = {}        # metric writer -> (value buffer parameter, definition buffer parameter), decided by what is done with them
     for b in wms:
         pr = Prov(b)
-        bufs = [i for i in range(1, b.arg_count + 1) if "PrefixedStringBuf" in b.locals[i]["ty"]]
+        bufs = buf_slots(F, b)
         valbuf, defbuf = bufs[0], bufs[1]
         # roles by what is done with the buffers, not by their position in the signature: the definition buffer is the one that
         # receives the `{"Name":` literal here; the value buffer is the one on which the inner writer emits the member name
         sim_ = c02.BufSim(F, b, CR)
         named = [p_ for p_ in bufs if any(x.name == "push_raw_str" and len(x.args) > 1 and '"Name":' in (sim_._const_str(x.args[1]) or "") and
-                                          any(y[0] == "arg" and y[1] == p_ for y in pr.operand(x.args[0])) for x in b.calls())]
+                                          any(slot_match(y, p_) for y in pr.operand(x.args[0])) for x in b.calls())]
         if len(named) == 1:
             defbuf = named[0]
             rest = [p_ for p_ in bufs if p_ != defbuf]
@@ -156,7 +202,7 @@ def run(ctx):
                         continue
                     spr = Prov(sb)
                     for ai, a in enumerate(x.args):
-                        src = [p_ for p_ in rest if any(y[0] == "arg" and y[1] == p_ for y in pr.operand(a))]
+                        src = [p_ for p_ in rest if any(slot_match(y, p_) for y in pr.operand(a))]
                         if src and any(z.name == "json_string" and z.args and any(y[0] == "arg" and y[1] == ai + 1 for y in spr.operand(z.args[0])) for z in sb.calls()):
                             valbuf = src[0]
         buf_roles[b.def_] = (valbuf, defbuf)
@@ -164,16 +210,16 @@ def run(ctx):
 
         def writes_def(x, names):
             """x appends to the definition buffer: directly, or by handing it to a local helper"""
-            if x.name in names and x.args and any(y[0] == "arg" and y[1] == defbuf for y in pr.operand(x.args[0])):
+            if x.name in names and x.args and any(slot_match(y, defbuf) for y in pr.operand(x.args[0])):
                 return True
             if any(sb.crate == CR for sb in local_callee_bodies(F, x)):
                 return any(op_local(a) is not None and "PrefixedStringBuf" in b.local_ty(op_local(a)) and
-                           any(y[0] == "arg" and y[1] == defbuf for y in pr.operand(a)) for a in x.args)
+                           any(slot_match(y, defbuf) for y in pr.operand(a)) for a in x.args)
             return False
         def _dty(c):
             return b.local_ty(c.dest["l"]) if not c.dest.get("p") else ""
         inner = [c for c in b.calls() if any(sb.crate == CR for sb in local_callee_bodies(F, c)) and ("Result<(), " in _dty(c) or _dty(c) == "bool")
-                 and any(any(x[0] == "arg" and x[1] == valbuf for x in pr.operand(a)) for a in c.args)]
+                 and any(any(slot_match(x, valbuf) for x in pr.operand(a)) for a in c.args)]
         ctx.check(len(inner) == 1, "R03.3", fnkey(b) + "#single-value-write", loc(b), "expected one fallible value write, found %d" % len(inner))
         from rules.c08 import _ret_assigns, gate_switch_value
 
@@ -182,7 +228,7 @@ def run(ctx):
             (`before`: a block the length read must precede, for the caller's form)"""
             pr_ = Prov(bd)
             dom_ = bd.dominators()
-            onbuf = lambda x: bool(x.args) and any(y[0] == "arg" and y[1] == bufarg for y in pr_.operand(x.args[0]))
+            onbuf = lambda x: bool(x.args) and any(slot_match(y, bufarg) for y in pr_.operand(x.args[0]))
             appends = [x for x in bd.calls() if onbuf(x) and x.name in ("push", "push_raw_str", "json_string", "push_integer", "push_str")]
             out = []
             for x in bd.calls():
@@ -205,7 +251,7 @@ def run(ctx):
             sw, tg, oth = sws[-1]
             # which outcome means `no value was written`: the one the callee returns after rolling the buffer back itself, else the
             # failure variant of its Result, else (a bool without rollback inside) the side on which this body rolls back
-            vi = [ai for ai, a in enumerate(c.args) if any(x[0] == "arg" and x[1] == valbuf for x in pr.operand(a))][0]
+            vi = [ai for ai, a in enumerate(c.args) if any(slot_match(x, valbuf) for x in pr.operand(a))][0]
             skip_outcome, callee_rolls = None, False
             for sb in local_callee_bodies(F, c):
                 if sb.crate != CR:
@@ -371,11 +417,11 @@ def run(ctx):
             if not cbs:
                 continue
             cb = cbs[0]
-            vi = buf_roles.get(cb.def_, ([i for i in range(1, cb.arg_count + 1) if "PrefixedStringBuf" in cb.locals[i]["ty"]][0], None))[0]
-            ai = vi - 1 if len(c.args) == cb.arg_count else None
+            vi = buf_roles.get(cb.def_, (buf_slots(F, cb)[0], None))[0]
+            ai = vi[0] - 1 if len(c.args) == cb.arg_count else None
             if ai is None:
                 continue
-            for x in pr.operand(c.args[ai]):
+            for x in pr.operand(c.args[ai], (vi[1],) if vi[1] else ()):
                 if x[0] == "arg" and len(x[2]) >= 2:
                     val_global.add(tuple(x[2][-2:]))
                 elif x[0] == "callf" and x[2]:
